@@ -235,9 +235,18 @@ def condValue (E : Ext) (c : Cond) (v : Val) (ex : Bool) : Bool :=
 
 /-! ## `extractValueFromSpan` -/
 
+/-- what an element of a trace is (`meta.annotation_type`): an ordinary span, a span event or a link -/
+inductive Kind where
+  | span | event | link
+  deriving DecidableEq, Repr, Inhabited
+
 structure Span where
   data : List (String × Val)
+  kind : Kind := .span
   deriving Repr, Inhabited
+
+/-- an ordinary span with these fields -/
+abbrev Span.of (data : List (String × Val)) : Span := { data := data }
 
 /-- The trace as the sampler sees it, together with the sampler's `CheckNestedFields` option.
 `maps` describes the map-valued field values: `Val.other id` is a map with these entries iff
@@ -330,7 +339,7 @@ def nestedResult (E : Ext) (t : Trace) (sp : Span) (fs : List String) : Extract 
 /-- `extractValueFromSpan` with its one pointer dereference that is not guarded by the code itself
 made explicit: `none` = nil-pointer panic in `json.Marshal(span.Data)`. -/
 def extractP (E : Ext) (t : Trace) (s : Span) (c : Cond) : Option Extract :=
-  if isNumDescendants c then some ⟨.int t.spans.length, true, true⟩
+  if isNumDescendants c then some ⟨.int t.spans.length, true, true⟩   -- trace.DescendantCount(): every element
   else
     let x := extractLoop t s (effFields c) true
     if x.ex then some x
